@@ -249,6 +249,31 @@ def check(ctx):
     if not reps:
         raise AnalysisError("DataFrame.unique no longer normalises NaN/NaT with replace_na: idiom changed, re-confirm GRD-sentinel")
     ctx.count("NA substitution sites in unique", len(reps), 1)
+    # which element types take part in the substitution?  Every type whose missing value is not equal to itself
+    # (NaN, NaT of dates AND of timedeltas) must: `x in seen` compares key tuples with ==
+    from ..dtclass import refine as _refine, ALL as _ALLK
+    for c in reps:
+        recv = c.func.value
+        recv_name = recv.id if isinstance(recv, ast.Name) else None
+        guards_ = []
+        p_ = uq.module.parent.get(c)
+        while p_ is not None and p_ is not uq.node:
+            par_ = uq.module.parent.get(p_)
+            if isinstance(par_, ast.If) and p_ in par_.body:
+                guards_.append(par_.test)
+            p_ = par_
+        if recv_name is None:
+            continue
+        st_ = frozenset(_ALLK)
+        for g_ in guards_:
+            st_ = _refine(st_, g_, True, recv_name)
+        need = {"F", "DT", "TD"}
+        miss = sorted(need - st_)
+        ctx.ob("GRD-sentinel", uq, f"element types whose missing value is normalised in the key: {sorted(st_ & need)}", c, not miss,
+               "NaN and both kinds of NaT are replaced (with their mask added), so missing keys compare equal to each other" if not miss else
+               f"columns of type {miss} (F float / DT datetime / TD timedelta) keep NaN/NaT inside the key tuples: NaT != NaT, so every "
+               f"row with a missing key is 'distinct' -- unique keeps them all and group_by makes one group per missing row",
+               clause="missing values compare equal to each other and to nothing else")
     # is an NA mask added to the key components?
     mask_added = False
     for n in body_nodes(uq.node):
